@@ -268,6 +268,18 @@ def vacuity_edges(view, Q, f, d):
                     edges.add((bi, tb))
             if all(v == 1 for v, _ in t["targets"]):
                 edges.add((bi, t["otherwise"]))
+        # (a'') a test made AFTER the event that the queue is empty: `if !self.is_empty() { heap_build() }`
+        dd = disc
+        negd = False
+        if dd[0] == "unop" and dd[1] == "Not":
+            dd = strip(dd[2])
+            negd = True
+        if dd[0] == "call" and dd[1].split("::")[-1] == "is_empty" and dd[1].startswith((Q, "store::Store")) and bi != d.bb and (
+                bi in f.cfg.reachable_from(d.bb)) and not f.cfg.dominates(bi, d.bb):
+            zero = [tb for v, tb in t["targets"] if v == 0]
+            empty_target = (zero[0] if zero else None) if negd else t["otherwise"]
+            if empty_target is not None:
+                edges.add((bi, empty_target))
         # (b) `match self.len() { 0 | 1 => .. }`: with at most one element left, any arrangement is ordered
         if disc[0] == "call" and disc[1].endswith("::len") and is_self_len(disc, Q):
             limit = 2 if d.kind == "REPL" else 1
@@ -306,6 +318,18 @@ def check_event(view, Q, d, in_up_heapify=False):
     for vt in vac_targets:
         if f.cfg.dominates(vt, d.bb) and len([p for p in f.cfg.pred[vt] if p in f.cfg.reach]) == 1:
             return True, "vacuous: at most one element remains on this arm (`match self.len()`)", None
+    # the same fact established by comparisons (`let n = self.len(); if n == 0 {..} else if n == 1 {..}`)
+    if d.kind in ("REPL", "PRED"):
+        try:
+            from .rules_bounds import RB
+            fa = RB(view).facts(f, d.bb)
+            limit = 2 if d.kind == "REPL" else 1
+            le = getattr(fa, "len_le", None)
+            eq = getattr(fa, "len_eq", None)
+            if (le is not None and le <= limit) or (eq is not None and eq <= limit):
+                return True, "vacuous: len <= %d is known before the removal" % limit, None
+        except Exception:
+            pass
     okblocks = {}
     composite = None
     for (bb, name, args, site) in rcalls:
@@ -483,7 +507,7 @@ def r_upboth(ctx, view, Q):
         carried = strip(args0[2]) if len(args0) > 2 else ("none",)
         carried_ok = False
         for x in walk(args0[2]) if len(args0) > 2 else ():
-            if x[0] == "call" and x[1].split("::")[-1] in ("get_unchecked", "get") and x[2] and component(x[2][0]) and component(x[2][0])[0] == "heap":
+            if x[0] == "call" and x[1].split("::")[-1] in ("get_unchecked", "get", "index") and x[2] and component(x[2][0]) and component(x[2][0])[0] == "heap":
                 idx = strip(x[2][1])
                 if idx[0] == "field" and is_param(idx[1], 2):
                     carried_ok = True
